@@ -129,7 +129,7 @@ def main(ctx, args):
         "types are not modelled (type-id arguments of the lambda/letrec combinators are placeholders); literals carry the bits of their value",
         "the tree of the real expansion is read (a) from the compiler's own trace line `ast after stage-0 execution` and (b) from a replica of compile_and_execute_stage0 built from the public API; both must print the same text",
         "the meaning of an expanded tree is given by Model/Core.lean through the (unverified, exercised) reader Model/StageIO.lean::toCoreProg",
-        "known findings steer the generator: F2, F3, F11, F17 (no `if` inside tuple components), (S1, the block-scope leak, is repaired in /repo e02acb0: programs that bind one name twice are compared with the model like all others)",
+        "known findings steer the generator: F11, F17 (F2 and F3 are repaired: several delay sizes and state inside `if` arms are generated) (no `if` inside tuple components), (S1, the block-scope leak, is repaired in /repo e02acb0: programs that bind one name twice are compared with the model like all others)",
     ]
     known = load_known("C09")
     if not extract(ctx):
